@@ -11,6 +11,7 @@
 import RotoV.Lemmas.Layout
 import RotoV.Lemmas.LayoutPath
 import RotoV.Lemmas.LayoutClone
+import RotoV.Lemmas.LayoutEq
 
 namespace RotoV.C02
 open RotoV RotoV.Layout RotoV.LayoutStd RotoV.Gen.LayoutGen
@@ -234,5 +235,71 @@ example :
     decode (cloneTy t 0 10 m) t 10 = decode m t 0 := by
   refine ⟨rfl, rfl, rfl, ?_⟩
   exact (clone_independent _ _ rfl 0 10 _ (by decide)).1
+
+/-- **T6 `eq_structural`** — for every inhabited type tree and any two stored
+    values of it that decode (valid tags), running the generated equality
+    function (`eqTy`: `generate_eq_body_*` with the discriminant test, the
+    per-variant field chains, `call_eq_by_ptr`'s zero-size shortcut) returns
+    exactly the structural equality of the two decoded values: tags equal and
+    fields pairwise equal, leaves compared by `le` — `IntCmp::Eq` on the loaded
+    bytes for integer-like leaves, `FloatCmp::Eq` for floats (IEEE `==`, which
+    is why `le` is a parameter and not byte equality), the runtime's eq
+    function for String / List / registered types. The only assumption on `le`
+    is that comparing zero bytes yields true. Padding and the storage of
+    unselected variants never influence the result. -/
+theorem eq_structural (le : LeafKind → List Nat → List Nat → Bool) (hle0 : ∀ k, le k [] [] = true)
+    (t : Ty) (L : Layout) (hL : layoutOf t = some L) (m : Mem) (a b : Nat) (va vb : V)
+    (ha : decode m t a = some va) (hb : decode m t b = some vb) :
+    eqTy le m t a b = veq le va vb :=
+  eqTy_veq le hle0 m t L hL a b va vb ha hb
+
+/-- **T6 (float-free reading)** — when every leaf comparison is equality of
+    the leaf's bytes (all leaves except floats, whose `==` is IEEE, and lists,
+    whose `==` compares the shared storages' contents), the generated function
+    returns true iff the two decoded values are equal. -/
+theorem eq_structural_exact (le : LeafKind → List Nat → List Nat → Bool)
+    (hle : ∀ k x y, le k x y = true ↔ x = y)
+    (t : Ty) (L : Layout) (hL : layoutOf t = some L) (m : Mem) (a b : Nat) (va vb : V)
+    (ha : decode m t a = some va) (hb : decode m t b = some vb) :
+    eqTy le m t a b = true ↔ va = vb := by
+  rw [eq_structural le (fun k => (hle k [] []).2 rfl) t L hL m a b va vb ha hb]
+  exact veq_iff_eq le hle va vb
+
+/-- non-vacuity of T6: two `{a: u8, b: u32}` values with equal fields but
+    different padding bytes differ as byte strings and still compare equal -/
+example :
+    let t := Ty.record (.cons (.leaf .int 1 1) (.cons (.leaf .int 4 4) .nil))
+    let m : Mem := fun x => if x = 0 ∨ x = 8 then 5 else if 1 ≤ x ∧ x < 4 then 99 else 0
+    let le : LeafKind → List Nat → List Nat → Bool := fun _ x y => decide (x = y)
+    layoutOf t = some { size := 8, align := 4 } ∧ m.read 0 8 ≠ m.read 8 8 ∧ eqTy le m t 0 8 = true := by
+  refine ⟨rfl, by decide, by decide⟩
+
+/-- **model coherence** — the executed clone / eq loops (`cloneFields`,
+    `eqFields`: what T5 / T6 are about) touch exactly the components the
+    op-level loops (`cloneRecordLoop`, `eqRecordLoop`: what is compared with the
+    real lowerer's generated functions on every run) list, at the same
+    offsets, in the same order. -/
+theorem executed_loops_are_the_listed_visits (le : LeafKind → List Nat → List Nat → Bool)
+    (fs : Tys) (src dst : Nat) (m : Mem) :
+    cloneFields fs LayoutBuilder.new src dst m =
+      (cloneRecordVisits fs).foldl (fun m v => cloneTy v.2.2 (src + v.2.1) (dst + v.2.1) m) m ∧
+    eqFields le m fs LayoutBuilder.new src dst =
+      (eqRecordVisits fs).all (fun v =>
+        match layoutOf v.2.2 with
+        | some l => if l.get_size = 0 then true else eqTy le m v.2.2 (src + v.2.1) (dst + v.2.1)
+        | none => true) :=
+  ⟨cloneFields_eq_visits fs 0 _ src dst m, eqFields_eq_visits le m fs 0 _ src dst⟩
+
+/-- **refutation on the tree as found** — before the repair (`fixed = false`:
+    `lower_type(ty).unwrap()` in `call_eq_by_ptr`) generating the equality
+    function of ANY aggregate with a zero-sized component panicked the
+    compiler; with the repair it is generated. Witnesses: `Option[()]` and
+    `{a: (), b: i32}` (replayed on the real code from `corpus/C02`). -/
+theorem eq_zero_sized_refuted_before_fix :
+    eqOps false (.enum (.cons (.cons .unit .nil) (.cons .nil .nil))) = .panic ∧
+    eqOps false (.record (.cons .unit (.cons (.leaf .int 4 4) .nil))) = .panic ∧
+    (eqOps true (.enum (.cons (.cons .unit .nil) (.cons .nil .nil)))).isPanic = false ∧
+    (eqOps true (.record (.cons .unit (.cons (.leaf .int 4 4) .nil)))).isPanic = false := by
+  refine ⟨rfl, rfl, rfl, rfl⟩
 
 end RotoV.C02
